@@ -152,3 +152,22 @@ package model
 //@   ensures[C19] roundtrip-d3: D() == 3 ==> result == fdiv(KF(), tofp(1000))
 //@   ensures[C19] roundtrip-d4: D() == 4 ==> result == fdiv(KF(), tofp(10000))
 //@   modifies nothing
+
+// generic update engine entry (C05: reached from every partial write/notify/reply)
+// Its reflective helpers are leaves outside the verifier's reach (reflect.Value walks); they are trusted not to
+// panic here and exercised only by the bounded replay corpus. What is decided for all inputs is UpdateList's own body.
+//@ func (*FilterType).Data trusted reflective
+//@   modifies new(FilterData)
+//@ func deleteFilteredData trusted reflective
+//@   modifies cells(T)
+//@ func copyToSelectedData trusted reflective
+//@   modifies cells(T)
+//@ func copyToAllData trusted reflective
+//@   modifies cells(T)
+//@ func HasIdentifiers trusted reflective
+//@   modifies nothing
+//@ func Merge trusted reflective
+//@   modifies cells(T)
+//@ func SortData trusted reflective
+//@   modifies cells(T)
+//@ func UpdateList safety-root
